@@ -118,6 +118,7 @@ class StandardObserver:
             "poolsize": int(getattr(ns._flow_proposal, "poolsize", 0) or 0),
             "phase": ("none" if getattr(ns, "proposal", None) is None else
                       "uninformed" if ns.proposal is ns._uninformed_proposal else "flow"),
+            "sched": repr(getattr(ns, "_last_checkpoint", None)),
         }
 
     counts_resume = counts
@@ -248,23 +249,8 @@ class StandardObserver:
 
         NestedSampler.update_state = update_state
 
-        # --- checkpoint(): time spent writing is not sampling time
-        orig_checkpoint = sbase.BaseNestedSampler.checkpoint
-
-        def checkpoint(ns, *a, **k):
-            import datetime as _dt
-
-            t_in = _dt.datetime.now()
-            obs.ckpt_entry = t_in
-            obs.ckpt_wrote = False
-            try:
-                return orig_checkpoint(ns, *a, **k)
-            finally:
-                if obs.ckpt_wrote:
-                    obs.excluded += (_dt.datetime.now() - t_in).total_seconds()
-                obs.ckpt_entry = None
-
-        sbase.BaseNestedSampler.checkpoint = checkpoint
+        # --- checkpoint(): time spent writing is not sampling time; one ckpt_call event per call (Schedule.tla)
+        wrap_checkpoint(obs)
 
         # --- timing (C12): wall clock since this process entered the loop
         orig_loop = NestedSampler.nested_sampling_loop
@@ -506,6 +492,59 @@ class StandardObserver:
                                       float(ns.condition), bool(ns.uninformed_sampling))))
         parts["evals"] = int(ns.model.likelihood_evaluations)
         return parts
+
+
+def wrap_checkpoint(obs):
+    """BaseNestedSampler.checkpoint: exclude the time spent writing from the observer's sampling clock and
+    emit one `ckpt_call` event per call with what decides the schedule (ScheduleOps.tla): the arguments,
+    the current and the last position (iterations, or milliseconds on this process's clock) and whether
+    a file was written."""
+    import datetime as _dt
+
+    from nessai.samplers import base as sbase
+
+    orig_checkpoint = sbase.BaseNestedSampler.checkpoint
+    t_proc = _dt.datetime.now()
+
+    def _ms(t):
+        v = int(round((t - t_proc).total_seconds() * 1000.0))
+        return max(-2 ** 30, min(2 ** 30, v))
+
+    def checkpoint(ns, periodic=False, force=False, *a, **k):
+        t_in = _dt.datetime.now()
+        obs.ckpt_entry = t_in
+        obs.ckpt_wrote = False
+        on_it = bool(getattr(ns, "checkpoint_on_iteration", False))
+        last0 = getattr(ns, "_last_checkpoint", None)
+        try:
+            return orig_checkpoint(ns, periodic, force, *a, **k)
+        finally:
+            t_out = _dt.datetime.now()
+            if obs.ckpt_wrote:
+                obs.excluded += (t_out - t_in).total_seconds()
+            obs.ckpt_entry = None
+            try:
+                last1 = getattr(ns, "_last_checkpoint", None)
+                iv = float(ns.checkpoint_interval)
+                if getattr(ns, "checkpoint_callback", None) is None and last0 is not None and math.isfinite(iv):
+                    if on_it:
+                        cur, l0, l1, ivi, near = int(ns.iteration), int(last0), int(last1), int(iv), False
+                        exact = float(ivi) == iv
+                    else:
+                        cur, l0, l1, ivi = _ms(t_in), _ms(last0), _ms(last1), int(round(iv * 1000.0))
+                        # the code reads its own clock a moment after the observer: no verdict at the boundary
+                        near = abs((cur - l0) - ivi) <= 50
+                        exact = abs(ivi) < 2 ** 30
+                        if l1 != l0:          # moved: to "now" as read by the code, between t_in and t_out
+                            l1 = cur if _ms(t_in) - 1 <= l1 <= _ms(t_out) + 1 else l1
+                    if exact:
+                        obs.em.emit("ckpt_call", periodic=bool(periodic), force=bool(force), on_it=on_it,
+                                    cur=cur, last0=l0, last1=l1, interval=ivi, near=bool(near),
+                                    wrote=bool(obs.ckpt_wrote), it=int(ns.iteration))
+            except Exception:  # noqa: the schedule event is best effort, never a verdict by itself
+                pass
+
+    sbase.BaseNestedSampler.checkpoint = checkpoint
 
 
 def _reparam_repr(rep):
